@@ -7,6 +7,7 @@ use std::io::{BufWriter, Write};
 mod rng;
 mod c19;
 mod c05;
+mod c04;
 
 pub struct Out {
     pub cases: BufWriter<File>,
@@ -70,6 +71,7 @@ fn main() {
             let n: usize = args[4].parse().unwrap();
             match prop {
                 "C19" => c19::gen(seed, n, &mut out),
+                "C04" => c04::gen(seed, n, &mut out),
                 "C05csr" => c05::gen_csr(seed, n, &mut out),
                 "C05list" => c05::gen_list(seed, n, &mut out),
                 _ => { eprintln!("unknown property {}", prop); std::process::exit(2); }
@@ -79,6 +81,7 @@ fn main() {
             let text = std::fs::read_to_string(&args[3]).unwrap();
             match prop {
                 "C19" => c19::replay(&text, &mut out),
+                "C04" => for (id, h, ops) in parse_generic(&text) { c04::run_case(id, &h, &ops, &mut out) },
                 "C05csr" => for (id, h, ops) in parse_generic(&text) { c05::run_csr_case(id, &h, &ops, &mut out) },
                 "C05list" => for (id, h, ops) in parse_generic(&text) { c05::run_list_case(id, &h, &ops, &mut out) },
                 _ => { eprintln!("unknown property {}", prop); std::process::exit(2); }
